@@ -165,11 +165,10 @@ func VerifC13ExtensionIDs() {
 	var exts []uint8
 	for i := 0; i < n; i++ {
 		t := verifU8("type") & 0x0F
-		verifAssume(t != 2)
+		verifAssume(t != 2) // the OBUs that are not transmitted are the "middle" kinds 2 and 3 below
 		verifAssume(t != 8)
-		verifAssume(t != 1) // sequence headers force a new packet anyway
 		pl := verifBytes("obu.payload", 1)
-		if i > 0 && i < n-1 {
+		if i < n-1 {
 			switch verifCase("middle", 0, verifBound("C13.extkinds")-1) {
 			case 1:
 				// an OBU without extension header between two that have one
